@@ -134,6 +134,9 @@ type Scenario struct {
 	// fitness (an experiment that goes on after its first solver, or whose winner criterion is not the fitness rank); the flag
 	// is a label for the records, not an input of the turnover
 	Winners int `json:"winner_flag_one_in,omitempty"`
+	// RetryAt > 0: the turnover of epoch RetryAt-1 is first attempted under a context that ends in the middle of it, then
+	// repeated (histories with survival threshold 1, where a failed turnover leaves the population complete)
+	RetryAt int `json:"cancelled_attempt_before_epoch,omitempty"`
 }
 
 type WarmSpec struct {
@@ -162,6 +165,7 @@ type ScenarioCfg struct {
 	ModularStart bool // one history in six is spawned from a modular start genome
 	DupIds       bool // one history in five starts with non-unique genome ids
 	CancelTail   bool // every second history ends with a turnover under a cancelled context
+	Retry        bool // one history in six contains a turnover that is cancelled half way and then repeated
 	Warm         bool // one history in four runs with an executor and/or options object that was used before (see WarmSpec)
 }
 
@@ -232,6 +236,10 @@ func genScenario(cfg ScenarioCfg) *rapid.Generator[Scenario] {
 		}
 		if cfg.CancelTail {
 			sc.CancelTail = rapid.Bool().Draw(t, "cancelled tail")
+		}
+		if cfg.Retry && rapid.IntRange(0, 5).Draw(t, "cancelled attempt") == 0 {
+			sc.RetryAt = 1 + rapid.IntRange(0, sc.Epochs-1).Draw(t, "cancelled attempt at")
+			sc.Opts.SurvivalThresh = 1
 		}
 		if rapid.IntRange(0, 4).Draw(t, "winner flags") == 0 {
 			sc.Winners = rapid.SampledFrom([]int{1, 2, 3, 7}).Draw(t, "winner one in")
@@ -522,12 +530,34 @@ func runScenario(sc Scenario, h epochHooks, rec *Rec) error {
 				return fmt.Errorf("before epoch %d: %v", e, err)
 			}
 		}
-		if err := exec.NextEpoch(ctx, e, pop); err != nil {
-			if !h.turnoverMustSucceed {
-				rec.Class("history ended by a failing turnover (outside this property, see C02)")
-				return nil
+		attempted := false
+		if sc.RetryAt == e+1 {
+			// the caller's context ends in the middle of this turnover (from its k-th poll on); the turnover fails, the
+			// population is still complete (survival threshold 1: nobody was removed yet), the caller evaluates it again and
+			// repeats the turnover
+			cctx := &countdownCtx{Context: ctx, closed: closedChan}
+			cctx.left.Store(int64(1 + sc.Seed%11))
+			if err := exec.NextEpoch(cctx, e, pop); err == nil {
+				attempted = true // the countdown did not run out: this was the turnover
+			} else {
+				if len(pop.Organisms) != n || checkPartition(pop, n) != nil {
+					rec.Class("history ended: population not complete after a cancelled turnover")
+					return nil
+				}
+				for i, o := range pop.Organisms {
+					o.Fitness = fitnessOf(sc.Fit, e, i, n, o.Genotype)
+				}
+				rec.Class("turnover repeated after a cancelled attempt")
 			}
-			return fmt.Errorf("epoch %d: NextEpoch returned error: %v", e, err)
+		}
+		if !attempted {
+			if err := exec.NextEpoch(ctx, e, pop); err != nil {
+				if !h.turnoverMustSucceed {
+					rec.Class("history ended by a failing turnover (outside this property, see C02)")
+					return nil
+				}
+				return fmt.Errorf("epoch %d: NextEpoch returned error: %v", e, err)
+			}
 		}
 		if h.after != nil {
 			if err := h.after(e, pop); err != nil {
